@@ -130,6 +130,9 @@ type Request struct {
 	ReadAfter bool `json:"read_after,omitempty"`
 	// Concurrent: this many identical library requests are served at the same time by one Traceroute object
 	Concurrent      int                       `json:"concurrent,omitempty"`
+	// OwnObjects (with Concurrent): every one of those requests goes through a Traceroute object of its own, made
+	// by the plain constructor at the moment of the request (an application that builds one per request)
+	OwnObjects bool `json:"own_objects,omitempty"`
 	DNS             map[string]DNSScript      `json:"dns,omitempty"`
 	DNSDefault      DNSScript                 `json:"dns_default"`
 	CancelAtUs      int64                     `json:"cancel_at_us,omitempty"`
@@ -145,6 +148,7 @@ type Request struct {
 
 type ReqOutcome struct {
 	Res                 *result.Results
+	AllRes              []*result.Results // with Concurrent: the result of every request
 	Err                 error
 	Panic               string
 	Deadlock            string
@@ -336,7 +340,11 @@ func RunRequest(t *testing.T, rq *Request) *ReqOutcome {
 						wg.Add(1)
 						go func(i int) {
 							defer wg.Done()
-							ress[i], errs[i] = tr.RunTraceroute(ctx, p.ToLib())
+							mine := tr
+							if rq.OwnObjects {
+								mine = traceroute.NewTraceroute()
+							}
+							ress[i], errs[i] = mine.RunTraceroute(ctx, p.ToLib())
 							if ress[i] != nil {
 								// the caller reads what it was handed
 								json.Marshal(ress[i])
@@ -345,6 +353,7 @@ func RunRequest(t *testing.T, rq *Request) *ReqOutcome {
 					}
 					wg.Wait()
 					out.Res, out.Err = ress[0], errs[0]
+					out.AllRes = ress
 					for i := range errs {
 						if errs[i] != nil {
 							out.Res, out.Err = nil, errs[i]
